@@ -1101,7 +1101,9 @@ class Interp:
                     if not isinstance(right, (list, tuple)):
                         raise Undecided("membership")
                     ok = (left in right) == isinstance(op, ast.In)
-                elif self.externals.get("__elementwise__") and (isinstance(left, list) or isinstance(right, list)) and len(e.ops) == 1:
+                elif self.externals.get("__elementwise__") and (isinstance(left, list) or isinstance(right, list)) and len(e.ops) == 1 and not (type(left) is list and type(right) is list and isinstance(op, (ast.Eq, ast.NotEq))):
+                    # (two PLAIN python lists compared with == / != are compared as python compares lists; tensors -- results of array
+                    # operations -- compare elementwise)
                     from .listnp import elementwise_compare
                     return elementwise_compare(lambda x, y, op=op: (x == y) == isinstance(op, ast.Eq) if (isinstance(x, bool) and isinstance(y, bool) and isinstance(op, (ast.Eq, ast.NotEq))) else self.compare(op, x, y), left, right)
                 else:
